@@ -22,7 +22,7 @@ func coreC01(tier string) []RunSpec {
 	return out
 }
 
-var mwKinds = []string{"fund", "swap", "melt", "resolve", "replay", "dup", "race", "checkstate", "restore", "restart", "clock", "adversarial", "internal", "rotate", "mintrace", "stalerelease"}
+var mwKinds = []string{"fund", "swap", "melt", "resolve", "replay", "dup", "race", "checkstate", "restore", "restart", "clock", "adversarial", "internal", "rotate", "mintrace", "stalerelease", "meltpollrace"}
 
 func mwKind(k string) int {
 	for i, x := range mwKinds {
@@ -67,6 +67,8 @@ func (m *MW) Step(kind int, allowRotate bool) {
 		m.StepMintRace()
 	case "stalerelease":
 		m.StepStaleRelease()
+	case "meltpollrace":
+		m.StepMeltPollRace()
 	}
 }
 
@@ -88,7 +90,7 @@ func runC01(rc *RunCtx) {
 	})
 	forced, isForced := rc.Spec.Params["force"]
 	// weights:       fund swap melt resolve replay dup race checkstate restore restart clock adv internal rotate
-	weights := []int{2, 3, 3, 2, 4, 2, 6, 2, 1, 1, 1, 0, 1, 0, 0, 3}
+	weights := []int{2, 3, 3, 2, 4, 2, 6, 2, 1, 1, 1, 0, 1, 0, 0, 3, 2}
 	// a quarter of the random runs additionally inject storage errors into ordinary operations
 	faults := !isForced && T.Chance("cfg.faults", 1, 4)
 	rc.StepLoop(3, 14, func(i int) {
